@@ -19,7 +19,7 @@ func convertLinesInto(ex *currency.ExchangeRate, lines []*Line) []*Line {
 func convertLineInto(ex *currency.ExchangeRate, line *Line) *Line {
 	accuracy := defaultCurrencyConversionAccuracy
 
-	if line.Item == nil || line.Item.Price == nil {
+	if line == nil || line.Item == nil || line.Item.Price == nil {
 		return line
 	}
 
@@ -36,7 +36,7 @@ func convertLineInto(ex *currency.ExchangeRate, line *Line) *Line {
 	// Use alt price if available
 	altFound := false
 	for i, ap := range l2i.AltPrices {
-		if ap.Currency == ex.To {
+		if ap != nil && ap.Currency == ex.To {
 			price = ap.Value
 			// remove this alt price from the list
 			l2i.AltPrices = append(l2i.AltPrices[:i], l2i.AltPrices[i+1:]...)
@@ -52,6 +52,9 @@ func convertLineInto(ex *currency.ExchangeRate, line *Line) *Line {
 	if len(l2.Discounts) > 0 {
 		rows := make([]*LineDiscount, len(l2.Discounts))
 		for i, v := range line.Discounts {
+			if v == nil {
+				continue
+			}
 			d := *v
 			d.Amount = d.Amount.Upscale(accuracy).Multiply(ex.Amount)
 			rows[i] = &d
@@ -62,6 +65,9 @@ func convertLineInto(ex *currency.ExchangeRate, line *Line) *Line {
 	if len(l2.Charges) > 0 {
 		rows := make([]*LineCharge, len(l2.Charges))
 		for i, v := range line.Charges {
+			if v == nil {
+				continue
+			}
 			d := *v
 			d.Amount = d.Amount.Upscale(accuracy).Multiply(ex.Amount)
 			rows[i] = &d
@@ -86,6 +92,9 @@ func convertDiscountsInto(ex *currency.ExchangeRate, discounts []*Discount) []*D
 }
 
 func convertDiscountInto(ex *currency.ExchangeRate, m *Discount) *Discount {
+	if m == nil {
+		return nil
+	}
 	accuracy := defaultCurrencyConversionAccuracy
 	m2 := *m
 	m2.Amount = m2.Amount.Upscale(accuracy).Multiply(ex.Amount)
@@ -104,6 +113,9 @@ func convertChargesInto(ex *currency.ExchangeRate, charges []*Charge) []*Charge 
 }
 
 func convertChargeInto(ex *currency.ExchangeRate, m *Charge) *Charge {
+	if m == nil {
+		return nil
+	}
 	accuracy := defaultCurrencyConversionAccuracy
 	m2 := *m
 	m2.Amount = m2.Amount.Upscale(accuracy).Multiply(ex.Amount)
@@ -120,6 +132,9 @@ func convertPaymentDetailsInto(ex *currency.ExchangeRate, pd *PaymentDetails) *P
 	}
 	p2.Advances = make([]*pay.Advance, len(pd.Advances))
 	for i, a := range pd.Advances {
+		if a == nil {
+			continue
+		}
 		a2 := *a
 		a2.Amount = a2.Amount.
 			Upscale(defaultCurrencyConversionAccuracy).
